@@ -7,6 +7,9 @@ mkdir -p .deps out
 if ! PYTHONPATH=.deps /venv/bin/python -c "import mpmath" 2>/dev/null; then
   /venv/bin/pip install --quiet --no-index --find-links /opt/veriftools/wheels --target .deps mpmath
 fi
+if ! PYTHONPATH=.deps /venv/bin/python -c "import atheris" 2>/dev/null; then
+  /venv/bin/pip install --quiet --no-index --find-links /opt/veriftools/wheels --target .deps atheris || echo "atheris not installed: coverage-guided shards will be skipped"
+fi
 /venv/bin/python -c "import hypothesis" 2>/dev/null || \
   /venv/bin/pip install --quiet --no-index --find-links /opt/veriftools/wheels hypothesis
 /venv/bin/python -m vlib.warm </dev/null || true
